@@ -4447,8 +4447,10 @@ EmitModVSib:
       if (ASMJIT_UNLIKELY(mod == 0xFF))
         goto InvalidAddress;
 
+      // [BP] alone cannot be encoded without a displacement - MOD=00 R/M=110 means [DISP16].
+      bool no_disp = rel_offset == 0 && mod != 0x06;
       mod += op_reg << 3;
-      if (rel_offset == 0 && mod != 0x06) {
+      if (no_disp) {
         writer.emit8(mod);
       }
       else if (Support::is_int_n<8>(rel_offset)) {
